@@ -183,7 +183,7 @@ def plain_case(draw, fmt, max_records, W):
         comments = {}
         for i in draw(st.lists(st.integers(1, max(1, n - 1)), max_size=3, unique=True)):
             if i < n:
-                comments[str(i)] = ["#interior comment", "# x y"][:draw(st.integers(1, 2))]
+                comments[str(i)] = ["#interior comment", "# x y", "#x\ty\t"][:draw(st.integers(1, 3))]        # (a comment may hold the column separator)
         if comments:
             case["comments"] = comments
         if fmt in ("wig", "gff"):
